@@ -261,6 +261,10 @@ func (core *JApiCore) checkPathSchemaPropertyUserType(typeName string) error {
 		return fmt.Errorf(`%s (%s)`, jerr.UserTypeNotFound, typeName)
 	}
 
+	if _, ok := ut.Schema.(*catalog.ExchangePseudoSchema); ok {
+		return nil // a type of the any / empty notation has no AST to look into
+	}
+
 	rootNode, err := ut.Schema.GetAST()
 	if err != nil {
 		return errors.New(jerr.RuntimeFailure)
